@@ -35,7 +35,10 @@ type res struct {
 	err      string
 	panicked bool
 	stack    string
+	harness  string // failure of the harness itself (not of go-git)
 }
+
+type harnessErr string
 
 func memObj(content []byte) *plumbing.MemoryObject {
 	o := &plumbing.MemoryObject{}
@@ -47,6 +50,10 @@ func memObj(content []byte) *plumbing.MemoryObject {
 func catchRes(name string, f func(r *res)) res {
 	r := res{name: name}
 	if p, st := vf.Catch(func() { f(&r) }); p != nil {
+		if he, ok := p.(harnessErr); ok {
+			r.ok, r.harness = false, string(he)
+			return r
+		}
 		r.panicked, r.ok = true, false
 		r.err = fmt.Sprint(p)
 		r.stack = st
@@ -143,7 +150,7 @@ type obsRec struct {
 	byPos map[int64]plumbing.Hash
 }
 
-func (o *obsRec) OnHeader(uint32) error                                      { return nil }
+func (o *obsRec) OnHeader(uint32) error                                          { return nil }
 func (o *obsRec) OnInflatedObjectHeader(plumbing.ObjectType, int64, int64) error { return nil }
 func (o *obsRec) OnInflatedObjectContent(h plumbing.Hash, pos int64, _ uint32, _ []byte) error {
 	o.byPos[pos] = h
@@ -247,7 +254,7 @@ func applyPackfile(bp builtPack, base, delta []byte, kind string, withFs, byOffs
 	return catchRes(name, func(r *res) {
 		idx, did, err := buildIdx(bp, base, delta)
 		if err != nil {
-			panic("harness: idx build: " + err.Error())
+			panic(harnessErr("idx build: " + err.Error()))
 		}
 		fs := memfs.New()
 		f, _ := fs.Create("p.pack")
@@ -289,18 +296,18 @@ func applyMmap(dir string, bp builtPack, base, delta []byte, kind string) res {
 	return catchRes(name, func(r *res) {
 		idx, did, err := buildIdx(bp, base, delta)
 		if err != nil {
-			panic("harness: idx build: " + err.Error())
+			panic(harnessErr("idx build: " + err.Error()))
 		}
 		var ib, rb bytes.Buffer
 		if err := idxfile.Encode(&ib, sha1.New(), idx); err != nil {
-			panic("harness: idx encode: " + err.Error())
+			panic(harnessErr("idx encode: " + err.Error()))
 		}
 		if err := revfile.Encode(&rb, sha1.New(), idx); err != nil {
-			panic("harness: rev encode: " + err.Error())
+			panic(harnessErr("rev encode: " + err.Error()))
 		}
 		d, err := os.MkdirTemp(dir, "mm")
 		if err != nil {
-			panic(err)
+			panic(harnessErr(err.Error()))
 		}
 		defer os.RemoveAll(d)
 		os.WriteFile(filepath.Join(d, "p.pack"), bp.bytes, 0o644)
@@ -311,11 +318,11 @@ func applyMmap(dir string, bp builtPack, base, delta []byte, kind string) res {
 		xf, e2 := fs.Open("p.idx")
 		rf, e3 := fs.Open("p.rev")
 		if e1 != nil || e2 != nil || e3 != nil {
-			panic(fmt.Sprint("harness: open: ", e1, e2, e3))
+			panic(harnessErr(fmt.Sprint("open: ", e1, e2, e3)))
 		}
 		s, err := mmap.NewPackScanner(20, pf, xf, rf)
 		if err != nil {
-			panic("harness: NewPackScanner on well-formed files: " + err.Error())
+			panic(harnessErr("NewPackScanner on well-formed files: " + err.Error()))
 		}
 		defer s.Close()
 		o, err := s.Get(did)
@@ -342,7 +349,7 @@ func applyUpdateStorage(bp builtPack, base []byte, kind string, want *[20]byte) 
 		st := filesystem.NewStorage(memfs.New(), cache.NewObjectLRUDefault())
 		defer st.Close()
 		if err := st.Init(); err != nil {
-			panic("harness: storage init: " + err.Error())
+			panic(harnessErr("storage init: " + err.Error()))
 		}
 		err := packfile.UpdateObjectStorage(st, bytes.NewReader(bp.bytes))
 		if err != nil {
